@@ -17,7 +17,7 @@ LEVEL_NOTE = ("Trusted: the insert-only alignment (bounded backtracking) accepts
 RULE = ("case = (a) generated tree, sizes tiny/8K/64K/256K, CRLF and multi-byte variants, or (b) 1-4 corpus files, some with "
         "UTF-8-preserving mutations; one edit run with 0-6 benign faults (short on n-th READ/WRITE, EINTR on n-th READ/WRITE/OPEN). "
         "Non-trivial = at least one token inserted; distinct = case index.")
-PROBES = ["id_range_runs_out", "bom_file", "short_write_retried", "short_read_retried", "eintr_retried", "multi_drain", "crlf_file", "corpus_world", "mutated_corpus",
+PROBES = ["non_utf8_source", "id_range_runs_out", "bom_file", "short_write_retried", "short_read_retried", "eintr_retried", "multi_drain", "crlf_file", "corpus_world", "mutated_corpus",
           "large_file_256k", "existing_refs_present"]
 ASSUMPTIONS = ["no fault other than short counts / EINTR is injected here (strict equality otherwise)"]
 DEADLINE = {"quick": 200, "thorough": 3000}
@@ -89,6 +89,14 @@ def gen(rng):
         if p.startswith("proj/src/c") and wm["extra"][p]["t"] == "f" and rng.random() < 0.12:
             wm["extra"][p]["data"] = b"\xef\xbb\xbf" + wm["extra"][p]["data"]
             tags.add("bom_file")
+    if rng.random() < 0.15:
+        # an in-scope file in a legacy encoding (not valid UTF-8): whatever the tool makes of it, the bytes it cannot
+        # decode stay as they are
+        bad = rng.choice([b"\xe9", b"\xff", b"\xc3\x28", b"\xed\xa0\x80", b"\xf0\x9f"])
+        wm["extra"]["proj/src/legacy_enc.rs"] = {"t": "f", "mode": 0o644, "data":
+            b"// caf" + bad + b" legacy encoding\nfn l() {\n    info!(\"latin " + bad + b" message\");\n"
+            b"    warn!(\"[ref: 7] has one " + bad + b"\");\n}\n"}
+        tags.add("non_utf8_source")
     # bystanders that must not change
     wm["extra"]["proj/notes.txt"] = {"t": "f", "mode": 0o644, "data": b"info!(\"bystander\");\n"}
     wm["extra"]["proj/src/data.rsx"] = {"t": "f", "mode": 0o600, "data": b"warn!(\"other ext\");\n"}
